@@ -156,6 +156,14 @@ let () =
                      (String.concat "," (List.map (fun l ->
                           String.concat "+" (List.sort (fun a b -> compare (String.length a, a) (String.length b, b)) (List.map string_of_z l))) offs)))
                    outs))
+          | "N" ->
+            (* stream types made unreadable: 3 = ThreadListStream, 7 = SystemInfoStream; every other one is optional *)
+            let hidden = ref [] in
+            while !pos < Array.length toks do hidden := next () :: !hidden done;
+            (match string_of_z (run_info_new (not (List.mem "3" !hidden)) (not (List.mem "7" !hidden))) with
+             | "0" -> "N ok"
+             | "1" -> "N err:MissingThreadList"
+             | _ -> "N err:MissingSystemInfo")
           | "B" ->
             let good = nz () in let _crash = next () in
             let n = int_of_string (next ()) in
